@@ -386,8 +386,9 @@ func ParseVec16Body(b []byte) ([]byte, error) {
 
 // CertificateRequest of GM/T 0024 (TLS 1.1 layout: types, authorities).
 type CertificateRequest struct {
-	Types []byte
-	CAs   [][]byte
+	Types   []byte
+	SigAlgs []uint16 // TLS 1.2 form only
+	CAs     [][]byte
 }
 
 // Marshal returns the handshake body.
@@ -493,7 +494,12 @@ type LenField struct {
 
 // LengthFields returns the positions of the vector length fields of a
 // well-formed message body (used to perturb exactly one of them).
-func LengthFields(typ uint8, b []byte) []LenField {
+func LengthFields(typ uint8, b []byte) []LenField { return lengthFields(typ, b, false) }
+
+// LengthFields12 is LengthFields for the TLS 1.2 message formats.
+func LengthFields12(typ uint8, b []byte) []LenField { return lengthFields(typ, b, true) }
+
+func lengthFields(typ uint8, b []byte, tls12 bool) []LenField {
 	var out []LenField
 	add := func(off, w int) bool {
 		if off+w > len(b) {
@@ -559,12 +565,22 @@ func LengthFields(typ uint8, b []byte) []LenField {
 			off += 3 + get(off, 3)
 		}
 	case HsServerKeyExchange, HsClientKeyExchange, HsCertificateVerify:
-		add(0, 2)
+		if tls12 && typ == HsCertificateVerify {
+			add(2, 2)
+		} else {
+			add(0, 2)
+		}
 	case HsCertificateRequest:
 		if !add(0, 1) {
 			return out
 		}
 		off := 1 + get(0, 1)
+		if tls12 {
+			if !add(off, 2) {
+				return out
+			}
+			off += 2 + get(off, 2)
+		}
 		if !add(off, 2) {
 			return out
 		}
